@@ -135,3 +135,51 @@ Proof.
   pose proof (jraw_feed_suffix limit st chunk) as H. cbn in *. unfold json_feed.
   destruct (jraw_feed limit st chunk); cbn in *; auto. destruct (dec p); exact H.
 Qed.
+
+(* ---- file based and compressors, under the hypotheses that make "the bytes given since the previous event" meaningful:
+   the loader left the file position at the end after each EOFError (so the BytesIO is the concatenation of what was
+   fed), and the decompressor's unused_data is the tail of the chunk that completed the stream ---- *)
+From EN Require Import Frame.ErrSites Frame.Generic.
+
+Definition fb_acc (st : fb_state) : bytes := match st with None => [] | Some (content, _) => content end.
+Definition fb_at_end (st : fb_state) : Prop := match st with None => True | Some (content, pos) => pos = length content end.
+
+Lemma fb_round_suffix {P} limit (load : bytes -> lres P) expected content :
+  event_suffix content (fb_round limit load expected content).
+Proof.
+  unfold fb_round. destruct (Nat.ltb _ _); [apply overrun_remainder_suffix|].
+  destruct (load content) as [pos|p pos|k pos]; [exact I|apply suffix_skipn|].
+  destruct (expected k); [apply suffix_skipn|exact I].
+Qed.
+
+Lemma fb_feed_suffix {P} limit (load : bytes -> lres P) expected st chunk : fb_at_end st ->
+  event_suffix (fb_acc st ++ chunk) (ffeed (fb_framer limit load expected) st chunk).
+Proof.
+  intros He. cbn. unfold fb_feed. destruct st as [[content pos]|]; cbn [fb_acc app]; [|apply fb_round_suffix].
+  cbn in He. subst pos. unfold bio_write. rewrite firstn_all, Nat.sub_diag. cbn [repeat app].
+  rewrite skipn_all2 by lia. rewrite app_nil_r. apply fb_round_suffix.
+Qed.
+
+(* the invariant is kept by a loader that reads to the end before raising EOFError *)
+Lemma fb_feed_keeps_at_end {P} limit (load : bytes -> lres P) expected st chunk st' :
+  (forall content pos, load content = LEof pos -> pos = length content) ->
+  ffeed (fb_framer limit load expected) st chunk = Need st' -> fb_at_end st'.
+Proof.
+  intros Hl. cbn. unfold fb_feed, fb_round.
+  destruct st as [[content pos]|];
+    (destruct (Nat.ltb _ _); [discriminate|]);
+    (destruct (load _) as [q|p q|k q] eqn:E; [|discriminate|destruct (expected k); discriminate]);
+    intros H; inversion H; subst; cbn; eapply Hl; eauto.
+Qed.
+
+Lemma cz_feed_suffix {P} D dnew (dd : D -> bytes -> (D * bytes) + Z) deof dunused expected (inner : bytes -> ores P)
+      inner_declared st chunk :
+  (forall d c d' out, dd d c = inl (d', out) -> deof d' = true -> suffix_of (dunused d') c) ->
+  event_suffix chunk (ffeed (cz_framer D dnew dd deof dunused expected inner inner_declared) st chunk).
+Proof.
+  intros Hu. cbn. unfold cz_feed, cz_finish. destruct st as [results d].
+  destruct (dd d chunk) as [[d' out]|k] eqn:E.
+  - destruct (deof d') eqn:Ee; [|exact I]. specialize (Hu _ _ _ _ E Ee).
+    destruct (inner _); [exact Hu|]. destruct (inner_declared k); [exact Hu|exact I].
+  - destruct (expected k); [apply suffix_nil|exact I].
+Qed.
